@@ -72,6 +72,7 @@ def run(check, prog):
     tables_exact(check, prog)
     channel_selection(check, prog)
     tiff_scaling(check, prog)
+    requested_channels(check, prog)
     depth_options(check, prog)
     load_unpacks(check, prog)
     # per-channel metadata given as a dictionary lands on the illumination axis
@@ -1596,6 +1597,153 @@ def channel_selection(check, prog):
 
 def _leaves(t):
     return _leaves(t[2]) + _leaves(t[3]) if t[0] == 'ite' else [t]
+
+
+def requested_channels(check, prog):
+    """U3b: `with the requested colour channels`.  For a colour raster and a channel
+    request, load_image hands data_grid the planes `arr[:, :, CH]` with CH the
+    request as an index array (every plane for 'all'), labels them -- when there
+    are several -- by the same CH, through the fixed table red, green, blue for
+    indices up to 2 and by the index itself beyond, and refuses an index the image
+    does not have.  Values and labels come from one and the same index array, in
+    the same order, so plane k of the result is the plane that was asked for k-th
+    and carries its name."""
+    from hpstatic.logic import resolve
+    q = IO + 'load_image'
+    fd = prog.func(q)
+    loc = prog.loc(q, fd)
+    ch = sym('channel')
+    EA = 'holopy.core.utils.ensure_array'
+    for all_ in (False, True):
+        def decide(t, all_=all_):
+            if t[0] == 'cmp' and t[2] == ch and t[3] == NONE:
+                return t[1] == 'is not'
+            if t[0] == 'cmp' and t[1] in ('==', '>') and t[3] == num(2) and \
+                    t[2][0] == 'attr' and t[2][2] == 'ndim':
+                return t[1] == '>'            # a colour image has three axes
+            if t[0] == 'cmp' and t[1] == '==' and t[2] == ch and \
+                    t[3] == ('const', 'all'):
+                return all_
+            return None
+        it = Interp(prog, max_depth=1, decide=decide, opaque=[
+            MD + 'data_grid', EA, MD + 'to_vector'])
+        res = it.analyze(q)
+        dg = [c for c in it.calls if c['name'] == MD + 'data_grid']
+        kind = "channel='all'" if all_ else 'channel list'
+        if len(dg) != 1:
+            check.bad('U3-requested-channels', 'load_image [%s]' % kind,
+                      'no single data_grid call on the colour path', loc)
+            continue
+        a = call_args(prog, dg[0])
+        arr = a.get('arr')
+        if arr is not None and arr[0] == 'call' and isinstance(arr[1], tuple) and \
+                arr[1][0] == 'attr' and arr[1][2] == 'squeeze' and not arr[2]:
+            arr = arr[1][1]
+        ok = arr is not None and arr[0] == 'idx' and arr[2][0] == 'tuple' and \
+            len(arr[2][1]) == 3 and all(x[0] == 'slice' and x[1:] == (NONE, NONE, NONE)
+                                        for x in arr[2][1][:2])
+        CH = arr[2][1][2] if ok else None
+        A = arr[1] if ok else None
+        if ok:
+            if all_:
+                okc = CH[0] == 'call' and CH[1] == EA and CH[2] and \
+                    CH[2][0] == ('call', 'range', (('idx', ('attr', A, 'shape'), num(2)),), ())
+            else:
+                okc = CH == ('call', EA, (ch,), ())
+            ok = okc and not any(x == ch for x in subterms(A))
+        check.require(ok, 'U3-requested-channels', 'load_image planes [%s]' % kind,
+                      'the planes handed on are arr[:, :, CH], CH = the request as an '
+                      'index array' + (' (every plane)' if all_ else ''), loc,
+                      fail_detail='data handed to data_grid: %s' % (
+                          show(a.get('arr'))[:160] if a.get('arr') else None))
+        if not ok:
+            continue
+        # labels
+        ed = a.get('extra_dims')
+        many = intern(('cmp', '<', num(1), ('call', 'len', (CH,), ())))
+        small = ('call', ('attr', CH, 'max'), (), ())
+
+        def lab(t, several, upto2):
+            def hyp(x):
+                from hpstatic.logic import cmp_is
+                if x[0] == 'cmp' and any(y == ('call', 'len', (CH,), ()) for y in (x[2], x[3])):
+                    if cmp_is(x, '<', num(1), ('call', 'len', (CH,), ())):
+                        return several
+                    return None
+                if x[0] == 'cmp' and small in (x[2], x[3]):
+                    if cmp_is(x, '<=', small, num(2)) or cmp_is(x, '<', small, num(3)):
+                        return upto2
+                    return None
+                return None
+            return resolve(t, hyp)
+        NAMES = ('list', (('const', 'red'), ('const', 'green'), ('const', 'blue')))
+        oks = []
+        for several, upto2 in ((False, True), (True, True), (True, False)):
+            v = lab(ed, several, upto2) if ed is not None else None
+            if not several:
+                oks.append(v == NONE)
+                continue
+            good = v is not None and v[0] == 'dict' and len(v[1]) == 1 and \
+                v[1][0][0] == ('const', 'illumination')
+            L = v[1][0][1] if good else None
+            if good and upto2:
+                if L[0] == 'call' and L[1] == 'list' and len(L[2]) == 1:
+                    L = L[2][0]
+                good = L[0] == 'comp' and len(L[3]) == 1 and L[3][0][1] == CH and \
+                    not L[3][0][2] and L[2] == ('idx', NAMES, L[3][0][0])
+            elif good:
+                good = L == CH
+            oks.append(good)
+        check.require(all(oks), 'U3-requested-channels', 'load_image labels [%s]' % kind,
+                      'one requested plane has no channel axis; several are labelled, '
+                      'in the order of the request, red / green / blue for indices up '
+                      'to 2 and by the index beyond', loc,
+                      fail_detail='extra_dims = %s' % (show(ed)[:200] if ed else None))
+        # per-channel optics given as plain sequences get the same labels
+        wlp = sym('illum_wavelen')
+        wla = a.get('illum_wavelen')
+
+        def hyp_w(x):
+            if x[0] == 'cmp' and x[1] in ('is not', 'is') and x[2] == wlp and x[3] == NONE:
+                return x[1] == 'is not'
+            if x[0] == 'call' and x[1] == 'isinstance' and x[2] and x[2][0] == wlp:
+                return False
+            if x[0] == 'cmp' and x[1] == '==' and any(
+                    y[0] == 'call' and y[1] == 'len' and y[2] and
+                    y[2][0] == ('call', EA, (wlp,), ()) for y in (x[2], x[3])):
+                return True
+            return None
+        vw = resolve(lab(wla, True, True), hyp_w) if wla is not None else None
+        vl = lab(ed, True, True)
+        okw = vw is not None and vw[0] == 'call' and vw[1] == 'xarray.DataArray' and \
+            vw[2] and vw[2][0] == ('call', EA, (wlp,), ())
+        if okw:
+            kw = dict(vw[3])
+            pos = list(vw[2][1:])
+            coords = kw.get('coords', pos[0] if pos else None)
+            dims = kw.get('dims', pos[1] if len(pos) > 1 else None)
+            okw = coords == vl and dims in (('const', 'illumination'),
+                                            ('list', (('const', 'illumination'),)),
+                                            ('tuple', (('const', 'illumination'),)))
+        check.require(okw, 'U3-requested-channels', 'load_image wavelengths [%s]' % kind,
+                      'as many unlabelled wavelengths as requested planes are labelled '
+                      'like the planes', loc,
+                      fail_detail='illum_wavelen handed on as %s' % (
+                          show(vw)[:160] if vw is not None else None))
+        # refusal
+        top = ('idx', ('attr', A, 'shape'), num(2))
+        from hpstatic.logic import cmp_is as _ci
+        refused = any(
+            'LoadError' in show(o.value) and any(
+                pol and t[0] == 'cmp' and (_ci(t, '<=', top, small) or
+                                           _ci(t, '<', ('bin', '-', top, num(1)), small))
+                for t, pol in norm_cond(o.cond)) for o in res.raises)
+        check.require(refused, 'U3-requested-channels', 'load_image refusal [%s]' % kind,
+                      'an index the image does not have (max(CH) >= number of planes) '
+                      'raises LoadError', loc,
+                      fail_detail='raises: %s' % [
+                          (show(o.value)[:40], [(show(t)[:60], p) for t, p in
+                                                norm_cond(o.cond)][-2:]) for o in res.raises][:3])
 
 
 def tiff_scaling(check, prog):
